@@ -296,7 +296,7 @@ claim("C02",
            "SimpleDMRS; lnk=false removes alignment and surface. The node-0 top-link normalisation lemmas. DMRS-PENMAN: "
            "fromTriples (toTriples d) = viewP d for graphs connected from the top, with the bijective renumbering from 10000 "
            "(top first, consecutive).",
-      note="Compared, not proved: that the character model equals the regex engine (the pinned patterns and the correspondence on every text incl. ~770 stress texts tie it), that render equals the format-string encoder text character for character, \d/\s beyond ASCII digits and the fixed blank list, and the file API. Assumed as parameters and checked by "
+      note="Compared, not proved: that the character model equals the regex engine (the pinned patterns and the correspondence on every text incl. ~770 stress texts tie it), that render equals the format-string encoder text character for character, the digit and white-space classes beyond ASCII digits and the fixed blank list, and the file API. Assumed as parameters and checked by "
            "side oracles: xml.etree, json, penman (up to node order; literal PENMAN text stability is not demanded, graph "
            "equality each round is), ASCII case mapping. Every tier runs long multi-graph documents for every codec "
            "(>1024 and >2048 lexer tokens; >16 KiB and >64 KiB texts through the string, stream and file APIs), a purity clause (15 "
